@@ -92,7 +92,8 @@ package nutsdb
 //@   modifies nothing
 //@ extern os.OpenFile (name, flag, perm) (f, err)
 //@   ensures err == nil ==> f != nil
-//@   modifies nothing
+//@   ensures fsMut >= old(fsMut) && (flag == 0 ==> fsMut == old(fsMut))
+//@   modifies fsMut
 
 // ---- sparse-mode root index record: [0,4) crc [4,12) fID [12,20) rootOff [20,24) startSize [24,28) endSize, start, end
 //@ spec func rootHdrOf(b []byte, r *BPTreeRootIdx) bool = le64(b, 4) == r.fID && le64(b, 12) == r.rootOff && le32(b, 20) == r.startSize && le32(b, 24) == r.endSize
@@ -169,6 +170,7 @@ package nutsdb
 //@   at return: assert[C21] bucketMeta != nil && err == nil ==> fresh(bucketMeta) && le32(buf, 4) == bucketMeta.startSize && le32(buf, 8) == bucketMeta.endSize &&
 //@        bucketMeta.crc == le32(buf, 0) && bucketMeta.crc == crcUpd(crcUpd(crcUpd(0, string(buf[4:])), string(bucketMeta.start)), string(bucketMeta.end)) &&
 //@        len(bucketMeta.start) == bucketMeta.startSize && len(bucketMeta.end) == bucketMeta.endSize
+//@   ensures[C09,C12] fsMut == old(fsMut)
 //@   modifies nothing
 //@   safety[C20,C21] panics
 
@@ -394,7 +396,7 @@ package nutsdb
 //@ func BPTree.WriteNodes
 //@   requires t != nil && t.root != nil && nodesOK(nil)
 //@   ensures syncEnable ==> unsynced == old(unsynced)
-//@   modifies all(Node.Next), queue, unsynced, queueLocked
+//@   modifies all(Node.Next), queue, unsynced, queueLocked, fsMut
 //@   safety[C20] panics
 //@   loops 2
 //@   loop 1: modifies all(Node.Next), queue, unsynced
@@ -406,7 +408,7 @@ package nutsdb
 //@   ensures err == nil && syncEnable && old(unsynced) == 0 ==> unsynced == 0
 //@   ensures[C21] err == nil ==> number == 28 + len(bri.start) + len(bri.end)
 //@   at call WriteAt: assert[C02,C21] $arg2 == offset && len($arg1) == 28 + len(bri.start) + len(bri.end) && rootHdrOf($arg1, bri)
-//@   modifies unsynced
+//@   modifies unsynced, fsMut
 //@   safety[C20] panics
 
 //@ spec func reservedOK(tx *Tx) bool = tx.ReservedStoreTxIDIdxes != nil && (forall f int64 :: has(tx.ReservedStoreTxIDIdxes, f) ==> tx.ReservedStoreTxIDIdxes[f] != nil)
@@ -424,7 +426,7 @@ package nutsdb
 //@   ensures tx.db.opt.EntryIdxMode == HintBPTSparseIdxMode ==> tx.db.ActiveBPTreeIdx != nil && tx.db.ActiveCommittedTxIdsIdx != nil
 //@   ensures result != nil ==> tx.db.ActiveFile == old(tx.db.ActiveFile) || tx.db.ActiveFile == nil
 //@   modifies tx.db.MaxFileID, tx.db.ActiveFile, tx.db.BPTreeRootIdxes, elems(tx.db.BPTreeRootIdxes), tx.db.BPTreeKeyEntryPosMap, tx.db.ActiveBPTreeIdx, tx.db.ActiveCommittedTxIdsIdx,
-//@        entries(tx.ReservedStoreTxIDIdxes), all(Node.Next), all(BPTree.Filepath), all(BPTree.enabledKeyPosMap), all(BPTree.keyPosMap), queue, unsynced, queueLocked
+//@        entries(tx.ReservedStoreTxIDIdxes), all(Node.Next), all(BPTree.Filepath), all(BPTree.enabledKeyPosMap), all(BPTree.keyPosMap), queue, unsynced, queueLocked, fsMut
 //@   ensures[C20] old(nodesOK(nil)) ==> nodesOK(nil)
 //@   ensures reservedOK(tx)
 //@   requires[C20] nodesOK(nil)
@@ -707,10 +709,10 @@ package nutsdb
 //@   requires reservedOK(tx)
 //@   ensures tx.db.opt.SyncEnable ==> unsynced == old(unsynced)
 //@   ensures nodesOK(nil)
-//@   modifies alltype(BPTree), alltype(Node), alltype(Record), queue, unsynced, queueLocked, allelems(tx.db.ActiveCommittedTxIdsIdx.root.Keys), allelems(tx.db.ActiveCommittedTxIdsIdx.root.pointers)
+//@   modifies alltype(BPTree), alltype(Node), alltype(Record), queue, unsynced, queueLocked, fsMut, allelems(tx.db.ActiveCommittedTxIdsIdx.root.Keys), allelems(tx.db.ActiveCommittedTxIdsIdx.root.pointers)
 //@   safety[C20] panics
 //@   loops 1
-//@   loop 1: modifies alltype(BPTree), alltype(Node), alltype(Record), queue, unsynced, queueLocked, allelems(tx.db.ActiveCommittedTxIdsIdx.root.Keys), allelems(tx.db.ActiveCommittedTxIdsIdx.root.pointers)
+//@   loop 1: modifies alltype(BPTree), alltype(Node), alltype(Record), queue, unsynced, queueLocked, fsMut, allelems(tx.db.ActiveCommittedTxIdsIdx.root.Keys), allelems(tx.db.ActiveCommittedTxIdsIdx.root.pointers)
 //@   loop 1: invariant tx == old(tx) && tx.db == old(tx.db) && tx.ReservedStoreTxIDIdxes == old(tx.ReservedStoreTxIDIdxes) && nodesOK(nil) && (tx.db.opt.SyncEnable ==> unsynced == old(unsynced)) &&
 //@        (forall f int64 :: has(tx.ReservedStoreTxIDIdxes, f) ==> tx.ReservedStoreTxIDIdxes[f] != nil)
 //@ spec func metaOK(m *BucketMeta) bool = metaWF(m) && allocated(m) && len(m.start) < 2147483642 && len(m.end) < 2147483642
@@ -725,7 +727,7 @@ package nutsdb
 //@   ensures[C02] result == nil && old(has(tx.db.bucketMetas, bucket)) ==> cmp(tx.db.bucketMetas[bucket].end, old(tx.db.bucketMetas[bucket].end)) >= 0
 //@   ensures[C04] forall b string :: b != bucket ==> has(tx.db.bucketMetas, b) == old(has(tx.db.bucketMetas, b)) && tx.db.bucketMetas[b] == old(tx.db.bucketMetas[b])
 //@   ensures metasOK(tx.db)
-//@   modifies entries(tx.db.bucketMetas), alltype(BucketMeta), unsynced
+//@   modifies entries(tx.db.bucketMetas), alltype(BucketMeta), unsynced, fsMut
 //@   safety[C20] panics
 
 //@ func Tx.Commit
@@ -907,10 +909,10 @@ package nutsdb
 //@ func DB.buildBPTreeRootIdxes
 //@   requires db != nil && len(dataFileIds) > 0 && (forall k int :: 0 <= k && k < len(db.BPTreeRootIdxes) ==> db.BPTreeRootIdxes[k] != nil)
 //@   ensures[C02] forall k int :: 0 <= k && k < len(db.BPTreeRootIdxes) ==> db.BPTreeRootIdxes[k] != nil
-//@   modifies db.BPTreeRootIdxes, elems(db.BPTreeRootIdxes), db.committedTxIds
+//@   modifies db.BPTreeRootIdxes, elems(db.BPTreeRootIdxes), db.committedTxIds, fsMut
 //@   safety[C20] panics
 //@   loops 2
-//@   loop 1: modifies db.BPTreeRootIdxes, elems(db.BPTreeRootIdxes)
+//@   loop 1: modifies db.BPTreeRootIdxes, elems(db.BPTreeRootIdxes), fsMut
 //@   loop 1: invariant 0 <= i && db == old(db) && dataFileIds == old(dataFileIds) && dataFileIdsSize == len(dataFileIds) && (forall k int :: 0 <= k && k < len(db.BPTreeRootIdxes) ==> db.BPTreeRootIdxes[k] != nil) &&
 //@        (arr(db.BPTreeRootIdxes) == arr(old(db.BPTreeRootIdxes)) || sinceLoop(db.BPTreeRootIdxes))
 //@   loop 2: modifies db.BPTreeRootIdxes, elems(db.BPTreeRootIdxes)
